@@ -19,6 +19,9 @@ structure Table where
   /-- `false`: the scan order of the table is not known to the model (on-disk engine: row-sets are
   visited in snapshot order) — order-dependent aggregates above it are then not predicted. -/
   ordered : Bool := true
+  /-- `some k`: the scan returns the rows sorted by column `k` (disk engine, PRIMARY KEY column: row-sets are
+  merged in key order) whatever the insertion order was. -/
+  sortKey : Option Nat := none
   deriving Inhabited
 
 structure POut where
@@ -314,8 +317,11 @@ def runPlan (tables : List Table) (spec : Bool) : Nat → Sexp → Except String
           let cs := listArgs cols
           let idx := cs.map (fun c => match c with | .atom a => (colIdOf a).getD 0 | _ => 0)
           .ok { schema := cs, types := idx.map (fun i => tb.types.getD i .null),
-                chunks := tb.chunks.map (fun c => c.map (fun r => idx.map (fun i => r.getD i .null))),
-                orderKnown := tb.ordered }
+                chunks := (let src : List Chunk := match tb.sortKey with
+                    | some k => [sortStable (fun (a b : Row) => Val.cmp (a.getD k .null) (b.getD k .null)) (flat tb.chunks)]
+                    | none => tb.chunks
+                  src.map (fun (c : Chunk) => c.map (fun (r : Row) => idx.map (fun i => r.getD i .null)))),
+                orderKnown := tb.ordered || tb.sortKey.isSome }
     | .list [.atom "proj", es, c] =>
       match runPlan tables spec fuel c with
       | .error e => .error e
